@@ -12,6 +12,7 @@ use poulpy_hal::api::*;
 use poulpy_hal::layouts::*;
 use poulpy_hal::source::Source;
 use poulpy_verif_harness::rec::*;
+use std::sync::atomic::{AtomicU64, Ordering};
 
 pub fn seed_words(s: &[u8; 32]) -> Vec<i128> {
     s.chunks(8).map(|c| u64::from_le_bytes(c.try_into().unwrap()) as i128).collect()
@@ -130,4 +131,37 @@ pub fn ser<T: WriterTo>(x: &T) -> Vec<u8> { let mut v = Vec::new(); x.write_to(&
 pub fn tail_words(bytes: &[u8], words: usize) -> Vec<i128> {
     let start = bytes.len() - 8 * words;
     bytes[start..].chunks_exact(8).map(|c| i64::from_le_bytes(c.try_into().unwrap()) as i128).collect()
+}
+
+/// Every scratch arena handed to the library is pre-filled with garbage derived from FILL (0 = leave it zeroed): a routine that
+/// reads scratch it did not write (e.g. an accumulator it forgot to zero) then produces output that differs from the model and
+/// between the two fills of `two_fills`.
+pub static FILL: AtomicU64 = AtomicU64::new(0x5EED_0001);
+pub fn garbage_scratch<BE: Backend>(bytes: usize) -> ScratchOwned<BE>
+where ScratchOwned<BE>: ScratchOwnedAlloc<BE> + ScratchOwnedBorrow<BE> {
+    let mut s = ScratchOwned::<BE>::alloc(bytes.max(64));
+    let f = FILL.load(Ordering::Relaxed);
+    if f != 0 {
+        let mut g = Rng::new(f);
+        let sc: &mut Scratch<BE> = s.borrow();
+        // odd fill: full-range words; even fill: small signed words (|x| < 2^16), which stay meaningful as i64 limbs / secrets even
+        // where full-range garbage would overflow a float conversion into a harmless zero
+        let small = f & 1 == 0;
+        for c in sc.data.chunks_mut(8) {
+            let w = g.next();
+            let v = (if small { ((w % (1 << 17)) as i64 - (1 << 16)) as u64 } else { w }).to_le_bytes();
+            let l = c.len(); c.copy_from_slice(&v[..l]);
+        }
+    }
+    s
+}
+/// run the case under two different garbage fills of every scratch arena; the outputs must not depend on the fill
+pub fn two_fills<F: Fn() -> Vec<Vec<i128>>>(f: F) -> Vec<Vec<i128>> {
+    FILL.store(0x5EED_0001, Ordering::Relaxed);
+    let a = f();
+    FILL.store(0xC0FF_EE77_1234_5678, Ordering::Relaxed);
+    let b = f();
+    FILL.store(0x5EED_0001, Ordering::Relaxed);
+    assert!(a == b, "output depends on the prior contents of the scratch arena");
+    a
 }
